@@ -178,20 +178,20 @@ Qed.
    deadline >= first deadline + k intervals *)
 Definition obj_ok (log : list event) (a : Z) (o : tobj) : Prop :=
   exists w, In (EAdd (o_seq o) a w (o_iv o)) log /\
-    (0 < o_iv o -> w + nruns (o_seq o) log * o_iv o <= o_exp o) /\
-    (o_iv o <= 0 -> nruns (o_seq o) log = 0 /\ o_exp o = w).
+    (0 <= o_iv o -> w + nruns (o_seq o) log * o_iv o <= o_exp o) /\
+    (o_iv o < 0 -> nruns (o_seq o) log = 0 /\ o_exp o = w).
 (* an expired Timer object whose callback has run in the current batch, before TimerQueue::reset *)
 Definition obj_ran (log : list event) (a : Z) (o : tobj) : Prop :=
   exists w, In (EAdd (o_seq o) a w (o_iv o)) log /\
-    (0 < o_iv o -> w + (nruns (o_seq o) log - 1) * o_iv o <= o_exp o).
+    (0 <= o_iv o -> w + (nruns (o_seq o) log - 1) * o_iv o <= o_exp o).
 
 Record LogInv (log : list event) (n : Z) : Prop := {
   l_adds : adds_from 0 log n;
   l_fresh : forall s, n < s -> nruns s log = 0;
   l_runadd : forall s dl now t, In (ERun s dl now t) log -> exists a w iv, In (EAdd s a w iv) log;
   l_before : runs_added 0 log;
-  l_rep : forall s a w iv, In (EAdd s a w iv) log -> 0 < iv -> spaced s w iv 0 log;
-  l_one : forall s a w iv, In (EAdd s a w iv) log -> iv <= 0 ->
+  l_rep : forall s a w iv, In (EAdd s a w iv) log -> 0 <= iv -> spaced s w iv 0 log;
+  l_one : forall s a w iv, In (EAdd s a w iv) log -> iv < 0 ->
             nruns s log <= 1 /\ forall dl now t, In (ERun s dl now t) log -> dl = w }.
 
 Definition HI (R : Z -> Prop) (st : state) (log : list event) : Prop :=
@@ -287,7 +287,7 @@ Proof.
   intros log a o dl now t (w & HI & A & B). exists w. rewrite nruns_app. cbn [nruns is_run]. rewrite Z.eqb_refl.
   split; [apply in_or_app; auto|]. intros P. specialize (A P). replace (nruns (o_seq o) log + (1 + 0) - 1) with (nruns (o_seq o) log) by lia. auto.
 Qed.
-Lemma obj_ran_restart : forall log a o now, obj_ran log a o -> 0 < o_iv o -> o_exp o <= now ->
+Lemma obj_ran_restart : forall log a o now, obj_ran log a o -> 0 <= o_iv o -> o_exp o <= now ->
   obj_ok log a (mkT (o_seq o) (now + o_iv o) (o_iv o)).
 Proof.
   intros log a o now (w & HI & A) P Le. exists w. cbn [o_seq o_iv o_exp]. split; auto. split; [|lia].
@@ -624,7 +624,7 @@ Proof.
       { intros ->. apply NIa. apply in_or_app. left. apply in_map_iff. exists (d', a); auto. }
       rewrite Fr by auto. apply Hex. right; auto. }
     destruct (o_repeat o && negb (kmem (a, o_seq o) (canceling st))) eqn:Br.
-    + apply andb_true_iff in Br as [Rp _]. unfold o_repeat in Rp. apply Z.ltb_lt in Rp.
+    + apply andb_true_iff in Br as [Rp _]. unfold o_repeat in Rp. apply Z.leb_le in Rp.
       set (o' := mkT (o_seq o) (now + o_iv o) (o_iv o)) in *.
       set (st1 := set_heap st (hput a o' (heap st))) in *.
       assert (I1 : Inv st1) by (apply inv_hput_det; auto).
@@ -960,7 +960,7 @@ Proof. intros c ops st evs H. destruct (reach_hist _ _ _ _ H) as (L & _). intros
 
 (* a one-shot (runAt / runAfter: interval <= 0) runs at most once, and under its own deadline *)
 Lemma oneshot_at_most_once : forall c ops st evs, run (init c) ops = Ok (st, evs) ->
-  forall s a w iv, In (EAdd s a w iv) evs -> iv <= 0 ->
+  forall s a w iv, In (EAdd s a w iv) evs -> iv < 0 ->
   forall l1 dl now t l2, evs = l1 ++ ERun s dl now t :: l2 ->
   dl = w /\ w <= now <= t /\
   (forall dl' now' t', ~ In (ERun s dl' now' t') l1) /\ (forall dl' now' t', ~ In (ERun s dl' now' t') l2).
@@ -979,7 +979,7 @@ Qed.
 (* the run of a repeater (runEvery: interval > 0) that has k predecessors is filed under a deadline
    >= first deadline + k intervals, and happens at or after that deadline *)
 Lemma repeat_spacing : forall c ops st evs, run (init c) ops = Ok (st, evs) ->
-  forall s a w iv, In (EAdd s a w iv) evs -> 0 < iv ->
+  forall s a w iv, In (EAdd s a w iv) evs -> 0 <= iv ->
   forall l1 dl now t l2, evs = l1 ++ ERun s dl now t :: l2 ->
   w + Z.of_nat (length (runs_of s l1)) * iv <= dl /\ dl <= now <= t.
 Proof.
@@ -1055,7 +1055,7 @@ Qed.
 (* exactly once: a registered one-shot whose deadline has passed runs in the next expiry, and -- whatever
    happens before and afterwards -- that is its only run *)
 Lemma oneshot_exactly_once : forall c ops st evs a o script st' ev ops2 st2 evs2,
-  run (init c) ops = Ok (st, evs) -> hget a (heap st) = Some o -> o_iv o <= 0 ->
+  run (init c) ops = Ok (st, evs) -> hget a (heap st) = Some o -> o_iv o < 0 ->
   In (o_exp o, a) (timers st) -> o_exp o <= clk st -> fire st script = Ok (st', ev) ->
   run st' ops2 = Ok (st2, evs2) ->
   (exists t, In (ERun (o_seq o) (o_exp o) (clk st) t) ev) /\
